@@ -113,8 +113,8 @@ def site_kinds(fn, wrappers):
                 name = mac[-1] if mac else last_seg(p)
                 yield ("panic:%s" % name, t[5])
                 continue
-            if p in wrappers:
-                yield ("call:%s" % p, t[5])
+            if fn_key(cal.get("path", "")) in wrappers:
+                yield ("call:%s" % fn_key(cal.get("path", "")), t[5])
                 continue
             for rx, k in PANICKING:
                 if k == "skip":
@@ -147,9 +147,7 @@ def panic_wrappers(F):
         if f.crate != "cairo_lang_utils" or not f.body or "{closure" in f.path:
             continue
         if any(True for _ in site_kinds(f, ())):
-            out.add(strip_generics(f.path))
-            if f.d.get("trait"):
-                out.add(f.d["trait"] + "::" + f.name)
+            out.add(fn_key(f.path))
     return out
 
 
